@@ -67,9 +67,10 @@ def check(case, res):
                                 'op %d next() on a Done routine left it in state %d' % (i, s['states'][r])))
                 if r in last_next_stop and s['out'] != STOP:
                     bad.append(('stale_terminal', 'done_is_absorbing_until_reset', i,
-                                'next() of routine %d raised StopStream at op %d but at op %d (no reset in between) '
-                                'it gave %s' % (r, last_next_stop[r], i, s['out'])))
-                if s['out'] == STOP:
+                                'next() of routine %d raised at op %d but at op %d (no reset in between) '
+                                'it gave %s instead of StopStream' % (r, last_next_stop[r], i, s['out'])))
+                if s['out'][0] == 1 and s['out'] != PAUSED and s['cur'] == 0:
+                    # raised (exhaustion, failure, already Done): from now on StopStream until reset
                     last_next_stop[r] = i
                 if s['out'][0] == 1 and s['out'][1] not in (2,) and s['states'][r] not in (4,) and b in (0, 2):
                     bad.append(('failure_not_done', 'routine_transitions', i,
